@@ -1031,7 +1031,7 @@ PROPERTY = C10
 # remove_notebook_document and update_text_document is translated on every run by a fail-closed AST
 # translator into a deep embedding, and the kernel re-checks that each method does to the four dictionaries
 # exactly what Model/Workspace.v says (KeyError of update_text_document included).  update_notebook_document
-# is NOT translated (it mutates objects through aliases; PyMini has values, not references).  Imported late
+# is translated too (round 5, see below).  Imported late
 # ("Module::theorem") so that a broken translator tie does not hide the other obligations.
 import sys as _sys
 _sys.path.insert(0, os.path.dirname(os.path.abspath(__file__)))
@@ -1039,7 +1039,11 @@ import gen_c10 as _gen_c10
 
 C10.obligations = list(C10.obligations) + ["Proofs.AstWorkspaceEquiv::" + n for n in (
     "ast_workspace_equiv", "ast_workspace_init_equiv", "ast_workspace_example")]
-C10.coq_targets = list(C10.coq_targets) + ["Proofs/AstWorkspaceEquiv.vo"]
+# update_notebook_document (round 5): its aliases are paths into self; Proofs/AstNotebookEquiv.v proves the
+# workspace it leaves and whether KeyError escaped to be Model/Workspace.v's, partial effects included
+C10.obligations += ["Proofs.AstNotebookEquiv::" + n for n in (
+    "ast_update_notebook_document_equiv", "ast_update_notebook_example")]
+C10.coq_targets = list(C10.coq_targets) + ["Proofs/AstWorkspaceEquiv.vo", "Proofs/AstNotebookEquiv.vo"]
 C10.trusted_base = list(C10.trusted_base) + [
     "translator tie: harness/gen_ast.py (Python ast -> PyMini, fail-closed) and the PyMini semantics "
     "coq/Base/PyMini.v (hand-written meaning of the Python subset: dict get / pop / item assignment / del, "
@@ -1057,7 +1061,7 @@ def _regenerate(self, chk):
             try:
                 _gen_c10.main()
             finally:
-                core._coq_make(["Proofs/AstWorkspaceEquiv.vo"])
+                core._coq_make(["Proofs/AstWorkspaceEquiv.vo", "Proofs/AstNotebookEquiv.vo"])
 
 
 C10.regenerate = _regenerate
